@@ -184,7 +184,17 @@ def run(case):
                 return atuple(vals)
             if outmode == "list":
                 return alist(vals)
-            return adict({"t%d" % i: v for i, v in enumerate(vals)})
+            # the ways autograd's dict can be constructed (mapping, pairs, keywords, mapping + keyword that overrides an entry: the
+            # overridden value never reaches the result and gets no cotangent)
+            names = ["t%d" % i for i in range(len(vals))]
+            form = case["id"] % 4
+            if form == 1 and vals:
+                return adict(dict(zip(names, [vals[-1] * 3.0 + 1.0] + list(vals[1:]))), t0=vals[0])
+            if form == 2:
+                return adict(list(zip(names, vals)))
+            if form == 3:
+                return adict(**dict(zip(names, vals)))
+            return adict(dict(zip(names, vals)))
         # type queries through autograd's isinstance answer as for the plain value
         def typed(c):
             ok = aisinstance(c, {"tuple": tuple, "list": list, "dict": dict}[tree["k"]]) if tree["k"] != "leaf" else True
